@@ -3,6 +3,7 @@
 -/
 import TinyHttpModel.WireSpec
 import TinyHttpModel.Lemmas.BodyRead
+import TinyHttpModel.Lemmas.PipelineBodies
 
 namespace TH.Props.C09
 open TH
@@ -69,5 +70,66 @@ example :
     (handle {} default default false ⟨0, 0, 1, .drop, false⟩ (.chunked none)
       (Spec.renderChunked [⟨b!"5", [], b!"hello"⟩] b!"0" ++ b!"GET /next HTTP/1.1\r\n\r\n") .eof).2.1
       = b!"GET /next HTTP/1.1\r\n\r\n" := by decide
+
+/-! ### end to end: a pipeline of requests with bodies -/
+
+/-- a request head, the optional whitespace it is rendered with, and its body -/
+structure Msg where
+  head : Head
+  ows : List (Bytes × Bytes)
+  body : Bytes
+
+def msgBytes (m : Msg) : Bytes := Spec.renderHead m.head m.ows ++ m.body
+
+/-- a well-formed request on a connection that stays open whose body is delimited by a
+    Content-Length equal to the number of body bytes on the wire (buffered at parse time if at most
+    1024 bytes, streamed otherwise), no Expect -/
+def plainBodied (m : Msg) : Prop :=
+  Spec.wfHead m.head = true ∧ (∀ o ∈ m.ows, Spec.isOwsList o.1 = true ∧ Spec.isOwsList o.2 = true) ∧
+  (framingOf m.head.headers = .ok ⟨.buffered m.body.length, some m.body.length, false⟩ ∨
+   framingOf m.head.headers = .ok ⟨.limited m.body.length, some m.body.length, false⟩) ∧
+  isLastRequest m.head.version m.head.headers = false ∧
+  (⟨Extracted.maxVersion.1, Extracted.maxVersion.2⟩ : Version).lt m.head.version = false
+
+/-- Message boundaries, end to end: a pipeline of any number of requests with Content-Length
+    bodies of any sizes, answered by ANY application script — each handler reading all of its
+    body, part of it or none of it, with any buffer size, then answering or dropping in any way —
+    is delivered request by request with exactly the heads that were sent; what each handler
+    obtained is a prefix of that request's own body (never a byte of a later message), and the
+    server closes after the client's orderly close. -/
+theorem pipeline_with_bodies (msgs : List Msg) (script : Script)
+    (hgood : ∀ m ∈ msgs, plainBodied m) :
+    let t := Conn.run ((msgs.map msgBytes).flatten) .eof script
+    t.delivered.map (fun d => (d.method, d.url, d.version, d.headers, d.bodyLength)) =
+        msgs.map (fun m => (m.head.method, m.head.url, m.head.version, m.head.headers, some m.body.length)) ∧
+      (∀ (i : Nat) (d : Delivered) (m : Msg), t.delivered[i]? = some d → msgs[i]? = some m → d.bodyRead <+: m.body) ∧
+      t.ending = .closed := by
+  intro t
+  have hbytes : msgs.map msgBytes = (msgs.map (fun m => (m.head, m.ows, m.body))).map bodiedBytes := by
+    rw [List.map_map]; rfl
+  have hlen := bodied_pipeline_length_ge (msgs.map (fun m => (m.head, m.ows, m.body)))
+  rw [← hbytes] at hlen
+  obtain ⟨s', ds, hrun, hdel, hmap, hpre⟩ :=
+    runLoop_bodied_pipeline (msgs.map (fun m => (m.head, m.ows, m.body)))
+      (((msgs.map msgBytes).flatten).length + 1) 0 {} [] .eof script (by omega)
+      (by
+        intro x hx
+        obtain ⟨m, hm, rfl⟩ := List.mem_map.mp hx
+        exact hgood m hm)
+  obtain ⟨k, hk⟩ : ∃ k, ((msgs.map msgBytes).flatten).length + 1 -
+      (msgs.map (fun m => (m.head, m.ows, m.body))).length = k + 1 :=
+    ⟨((msgs.map msgBytes).flatten).length - (msgs.map (fun m => (m.head, m.ows, m.body))).length, by omega⟩
+  have hdel' : s'.delivered = ds := by rw [hdel]; exact List.nil_append _
+  have ht : t = s'.finish .closed := by
+    have := hrun
+    rw [List.append_nil, ← hbytes, hk] at this
+    exact this
+  rw [ht]
+  refine ⟨?_, ?_, rfl⟩
+  · rw [St.finish_delivered, hdel', hmap, List.map_map]
+    rfl
+  · intro i d m h1 h2
+    rw [St.finish_delivered, hdel'] at h1
+    exact hpre i d (m.head, m.ows, m.body) h1 (by rw [List.getElem?_map, h2]; rfl)
 
 end TH.Props.C09
